@@ -725,7 +725,13 @@ func (c *Conn) Seek(offset int64, whence int) (int64, error) {
 func (c *Conn) Read(b []byte) (int, error) {
 	batch := c.ReadBatch(1, len(b))
 	n, err := batch.Read(b)
-	return n, coalesceErrors(silentEOF(err), batch.Close())
+	closeErr := batch.Close()
+	if errors.Is(err, io.ErrShortBuffer) && closeErr != nil {
+		// the buffer was too short AND the rest of the response could not be
+		// skipped: the connection is gone, a bigger buffer will not help.
+		err = closeErr
+	}
+	return n, coalesceErrors(silentEOF(err), closeErr)
 }
 
 // ReadMessage reads the message at the current offset from the connection,
